@@ -6,8 +6,10 @@ S=$(mktemp -d /var/tmp/flexsuite.XXXXXX)
 trap 'rm -rf "$S"' EXIT
 rsync -a --exclude .git /repo/ "$S/flex/"
 cd "$S/flex"
+# the configured Makefiles carry /repo as absolute build directory: retarget them to the copy
+find . -name Makefile -print0 | xargs -0 sed -i "s|/repo/|$S/flex/|g; s|= /repo\$|= $S/flex|"
 unset POSIXLY_CORRECT
-make -j16 >"$S/build.log" 2>&1 || { tail -30 "$S/build.log"; echo "BUILD FAILED"; exit 1; }
+make -j8 >"$S/build.log" 2>&1 || { tail -30 "$S/build.log"; echo "BUILD FAILED"; exit 1; }
 make -C tests clean >/dev/null 2>&1 || true
 make -j16 check >"$S/check.log" 2>&1 || true
 grep -E "^# (TOTAL|PASS|FAIL|XFAIL|XPASS|ERROR|SKIP)" "$S/check.log" | tr '\n' ' '
